@@ -26,7 +26,8 @@ type c09Part struct {
 	L  *string   `json:"l"`
 	V  *string   `json:"v"`
 	D  *string   `json:"d"`
-	Mx []c09Part `json:"mx"` // mixed path segment: literal text and variables inside one segment
+	E  []string  `json:"enum"` // server variable: the declared set of values (optional)
+	Mx []c09Part `json:"mx"`   // mixed path segment: literal text and variables inside one segment
 }
 
 func (p c09Part) text() string {
@@ -129,7 +130,11 @@ func c09ServerJSON(s c09Server) map[string]any {
 			if p.D != nil {
 				d = *p.D
 			}
-			vars[*p.V] = map[string]any{"default": d}
+			v := map[string]any{"default": d}
+			if len(p.E) > 0 {
+				v["enum"] = p.E
+			}
+			vars[*p.V] = v
 		}
 	}
 	if s.Abs {
